@@ -180,6 +180,14 @@ def pyscf_reference(symbols, coords, charge, basis, active):
 # ----------------------------------------------------------------------------------------------- one case
 def chem_case(ctx, qp, rng, gi, molname, basis, active):
     symbols, coords, charge = geometry(rng, molname)
+    if rng.random() < 0.6:
+        # energies are invariant under rigid motions, the integral code (p-type functions, Hermite-Coulomb recursions per axis) is not written
+        # per axis symmetrically: put the molecule at a generic orientation and origin instead of along z in the y-z plane
+        Q, Rr = np.linalg.qr(rng.normal(size=(3, 3)))
+        Q = Q * np.sign(np.diag(Rr))
+        if np.linalg.det(Q) < 0:
+            Q[:, 0] = -Q[:, 0]
+        coords = (np.asarray(coords, dtype=float) @ Q.T + rng.uniform(-1.0, 1.0, size=3)).tolist()
     coords = np.array(coords, dtype=float)
     ref = pyscf_reference(symbols, coords, charge, basis, active)
     if ref is None:
